@@ -5,6 +5,7 @@ package main
 
 import (
 	"fmt"
+	"go/types"
 	"os"
 	"path/filepath"
 
@@ -221,6 +222,21 @@ func selfTest() (failed []string, n int) {
 	if ph, wh := hashOf("prefixHasher"), hashOf("wholeHasher"); ph != nil && wh != nil {
 		expect("key hash / prefix only", partialKeyHash(w, ph) != "", true)
 		expect("key hash / whole key", partialKeyHash(w, wh) != "", false)
+	}
+	methodOf := func(typ, name string) *ssa.Function {
+		for _, m := range sp.Members {
+			if t, ok := m.(*ssa.Type); ok && t.Name() == typ {
+				return prog.LookupMethod(types.NewPointer(t.Type()), sp.Pkg, name)
+			}
+		}
+		failed = append(failed, "canary type missing: "+typ)
+		return nil
+	}
+	if g, l := methodOf("miniLRU", "Get"), methodOf("miniLRU", "Len"); g != nil && l != nil {
+		wg, _ := writesThroughReceiver(g, 0, nil)
+		wl, _ := writesThroughReceiver(l, 0, nil)
+		expect("receiver purity / look-up that moves the entry", wg, true)
+		expect("receiver purity / length", wl, false)
 	}
 	expect("error discipline / checked", dropped("RetOK"), false)
 	expect("error discipline / result discarded", dropped("RetDrop"), true)
